@@ -28,17 +28,25 @@ PageSeq(page, limit) == PageSeqFrom((page - 1) * limit, page * limit)
 
 InitState == [known |-> {},         \* transactions some provider has answered in full (cacheable)
               addrs |-> {},          \* addresses whose complete history some provider has answered
+              utx |-> {},            \* addresses whose complete unspent-output list some provider has answered
+              bal |-> {},            \* addresses whose balance some provider has answered (directly or as a complete list)
+              spent |-> {},          \* outputs <<t, n>> whose spent flag some provider has answered
+              count |-> FALSE,       \* the block count has been answered
               blockKnown |-> FALSE,  \* block header answered
               fee |-> <<>>]          \* fee group -> value answered and stored  (function with domain \subseteq groups)
 
 HasFee(s, g) == g \in DOMAIN s.fee
+\* name of a transaction in isspent queries, and its outputs (transactions of this model have at most two)
+TN(t) == t[1] \o ToString(t[2])
+TxOutputs(t) == {<<TN(t), 0>>, <<TN(t), 1>>}
 
 \* e = [op, prov ("ok" | "fail"), ok (a value was returned), ret (the value), ...]
 Succ(s, e) ==
   CASE e.op = "tx" ->        \* gettransaction(e.t)
          IF ~e.ok THEN (IF e.prov = "fail" THEN {s} ELSE {})
          ELSE IF e.ret # e.t THEN {}                                   \* someone else's / corrupted transaction
-         ELSE IF e.prov = "ok" THEN {[s EXCEPT !.known = @ \cup {e.t}], s}   \* storing is the cache's choice
+         \* storing is the cache's choice; a transaction answered in full carries the spent flags of its outputs
+         ELSE IF e.prov = "ok" THEN {[s EXCEPT !.known = @ \cup {e.t}, !.spent = @ \cup TxOutputs(e.t)], [s EXCEPT !.known = @ \cup {e.t}], s}
          ELSE IF e.t \in s.known THEN {s} ELSE {}                      \* nobody answered now or earlier: fabricated
     [] e.op = "raw" ->       \* getrawtransaction(e.t)
          IF ~e.ok THEN (IF e.prov = "fail" THEN {s} ELSE {})
@@ -59,6 +67,28 @@ Succ(s, e) ==
               THEN {[s EXCEPT !.known = @ \cup {e.full[i] : i \in 1..Len(e.full)}, !.addrs = @ \cup {e.a}], s,
                     [s EXCEPT !.addrs = @ \cup {e.a}]}
          ELSE IF e.a \in s.addrs THEN {s} ELSE {}                      \* only a history answered in full before
+    \* The world of a recorded history is static: the truth of every query is a field of the event (e.full, e.val,
+    \* e.truth) and an answer is allowed only if it equals the truth AND a provider has answered it, now or before.
+    [] e.op = "utxos" ->     \* getutxos(address e.a): e.full = the complete list a provider answers (old to new)
+         IF ~e.ok THEN (IF e.prov = "fail" THEN {s} ELSE {})
+         ELSE IF e.ret # e.full THEN {}                                \* missing, repeated, foreign or spent outputs
+         ELSE IF e.prov = "ok" THEN {[s EXCEPT !.utx = @ \cup {e.a}, !.bal = @ \cup {e.a}], [s EXCEPT !.utx = @ \cup {e.a}], s}
+         ELSE IF e.a \in s.utx THEN {s} ELSE {}
+    [] e.op = "balance" ->   \* getbalance(list of addresses e.as): e.val = sum of their balances
+         IF ~e.ok THEN (IF e.prov = "fail" THEN {s} ELSE {})
+         ELSE IF e.ret # e.val THEN {}
+         ELSE IF e.prov = "ok" THEN {[s EXCEPT !.bal = @ \cup {e.as[i] : i \in 1..Len(e.as)}], s}
+         ELSE IF \A i \in 1..Len(e.as) : e.as[i] \in s.bal \/ e.as[i] \in s.addrs THEN {s} ELSE {}
+    [] e.op = "isspent" ->   \* isspent(transaction e.t, output e.n): e.truth
+         IF ~e.ok THEN (IF e.prov = "fail" THEN {s} ELSE {})
+         ELSE IF e.ret # e.truth THEN {}
+         ELSE IF e.prov = "ok" THEN {[s EXCEPT !.spent = @ \cup {<<e.t, e.n>>}], s}
+         ELSE IF <<e.t, e.n>> \in s.spent THEN {s} ELSE {}
+    [] e.op = "count" ->     \* blockcount(): e.val
+         IF ~e.ok THEN (IF e.prov = "fail" THEN {s} ELSE {})
+         ELSE IF e.ret # e.val THEN {}
+         ELSE IF e.prov = "ok" THEN {[s EXCEPT !.count = TRUE], s}
+         ELSE IF s.count THEN {s} ELSE {}
     [] e.op = "fee" ->       \* estimatefee(group): e.pval = what the provider would answer now
          IF ~e.ok THEN (IF e.prov = "fail" THEN {s} ELSE {})
          ELSE IF HasFee(s, e.g) /\ e.ret = s.fee[e.g] THEN {s}         \* served from the cache: equals the stored value
@@ -72,4 +102,8 @@ SuccDevFeeDefault(s, e) ==
     IF e.op = "fee" /\ e.prov = "fail" /\ e.ret = e.default /\ ~HasFee(s, e.g)
     THEN {[s EXCEPT !.fee = [x \in (DOMAIN @) \cup {e.g} |-> IF x = e.g THEN e.default ELSE @[x]]]}
     ELSE {}
+\* named deviations of ServiceFailover!DevOnFalse seen through the cache layer: the failure of the fail-over loop is
+\* turned into the answer "0" / "unspent"
+SuccDevBalanceZero(s, e) == IF e.op = "balance" /\ e.prov = "fail" /\ e.ok /\ e.ret = 0 THEN {s} ELSE {}
+SuccDevIsSpentFalse(s, e) == IF e.op = "isspent" /\ e.prov = "fail" /\ e.ok /\ e.ret = FALSE THEN {s} ELSE {}
 =============================================================================
